@@ -120,6 +120,8 @@ AssembleFails(e) ==
   IN
   \* C07: every input reads the same after the call - product, warning, error or injected fault
   Chk("C07:InputsRestored", e.after = e.before)
+  \* C10: the citation qualifiers of every input read afterwards as they were written before - product, warning or error
+  \cup (IF "cit_before" \in DOMAIN e THEN Chk("C10:InputCitationsUnchanged", e.cit_after = e.cit_before) ELSE {})
   \* C03: the outcome is a function of the overhang graph - the same call again names the same left-out modules (warnings
   \* recorded the way a session sees them: one recording block around both calls, Python's default action)
   \cup (IF e.rep.has /\ e.fault.at = 0 /\ out.kind = "product"
